@@ -19,6 +19,10 @@ import (
 var finfoMu sync.Mutex
 var lastProgress time.Time
 
+// incrementalBudget is the time the long-lived incremental solver gets per query before the query is
+// re-issued to a fresh non-incremental solver process.
+const incrementalBudget = 4 * time.Second
+
 type jent struct {
 	obj *Object
 	idx int
@@ -149,6 +153,14 @@ func (x *Exec) check(extra *smt.Term, wantModel bool) (smt.Verdict, map[string]u
 		fmt.Fprintf(os.Stderr, "progress: paths=%d queries=%d obligations=%d steps=%d forks=%d merges=%d restarts=%d pc=%d at %s\n", x.res.Paths, x.e.S.Queries, x.res.Obligations, x.steps, x.res.Forks, x.res.Merges, x.res.Restarts, len(x.pc), x.where())
 	}
 	v, m, _ := x.e.S.CheckPC(x.pc, extra, wantModel)
+	if v == smt.Unknown && x.e.opts.Timeout > incrementalBudget {
+		// the incremental core gave up within its short budget: retry in a fresh process with the full budget
+		as := make([]*smt.Term, 0, len(x.pc)+1)
+		as = append(as, x.pc...)
+		as = append(as, extra)
+		v, m, _ = x.e.S.CheckFresh(as, wantModel, x.e.opts.Timeout)
+		x.res.FreshQueries++
+	}
 	if dt := time.Since(tq); dt > 5*time.Second && os.Getenv("VERIF_SLOW") != "" {
 		fmt.Fprintf(os.Stderr, "slow query %.1fs -> %v at %s (pc terms %d)\n", dt.Seconds(), v, x.where(), len(x.pc))
 	}
